@@ -281,11 +281,29 @@ func isByte(t types.Type) bool {
 }
 
 func c17iter(c *Ctx, f *ir.Func, kv kvFields, bucketIter, memIter *types.Func) {
-	// the iterator body is the (single) literal returned
+	// the iterator body is the (single) literal returned — or the method whose value is returned (`return b.iterate`)
+	var bodies []*ir.Func
 	for _, lit := range f.Lits {
-		if lit.Parent != f {
-			continue
+		if lit.Parent == f {
+			bodies = append(bodies, lit)
 		}
+	}
+	if len(bodies) == 0 {
+		ir.Walk(f.Body, false, func(x ast.Node) {
+			rs, ok := x.(*ast.ReturnStmt)
+			if !ok || len(rs.Results) != 1 {
+				return
+			}
+			if sel, isSel := ast.Unparen(rs.Results[0]).(*ast.SelectorExpr); isSel {
+				if fn, isFn := f.Info().Uses[sel.Sel].(*types.Func); isFn {
+					if mf := c.P.FuncOf(fn.Origin()); mf != nil {
+						bodies = append(bodies, c.P.Views("chain", ir.ExpandOpt{Key: "kv"}).Of(mf))
+					}
+				}
+			}
+		})
+	}
+	for _, lit := range bodies {
 		// yield parameter
 		var yield types.Object
 		for _, fld := range lit.Type.Params.List {
@@ -366,6 +384,8 @@ func c17iter(c *Ctx, f *ir.Func, kv kvFields, bucketIter, memIter *types.Func) {
 		}
 		ob := c.Ob(f, "iterates-base-and-pending-puts", lit.Body.Pos())
 		switch {
+		case baseLoops == 0 && rangesOverFuncValue(lit):
+			ob.Unknown("the iterator is assembled from function values (adapters over sequences); its loops and their guards are not visible to this rule")
 		case baseLoops == 0:
 			ob.Bad(nil, "iterator does not range over a base layer")
 		case overlayLoops == 0:
@@ -374,6 +394,23 @@ func c17iter(c *Ctx, f *ir.Func, kv kvFields, bucketIter, memIter *types.Func) {
 			ob.OK("%d base loop(s), %d overlay loop(s)", baseLoops, overlayLoops)
 		}
 	}
+}
+
+// rangesOverFuncValue: some loop of f ranges over a variable of function type (an iterator built elsewhere).
+func rangesOverFuncValue(f *ir.Func) bool {
+	found := false
+	ir.Walk(f.Body, true, func(x ast.Node) {
+		if rs, ok := x.(*ast.RangeStmt); ok {
+			if id, isID := ast.Unparen(rs.X).(*ast.Ident); isID {
+				if t := f.TypeOf(id); t != nil {
+					if _, isFn := t.Underlying().(*types.Signature); isFn {
+						found = true
+					}
+				}
+			}
+		}
+	})
+	return found
 }
 
 // reachAvoidingEdges reports whether target is reachable from the target of
